@@ -27,7 +27,7 @@ ASSUMPTIONS = [
     'a requested grid that contains no native point of some molecule is outside "requested grids/observations" '
     'only if it contains no native point of the model grid either; otherwise it is judged',
 ]
-_Q = {'restrict': 40, 'emission': 16, 'binning': 22, 'opacity': 60, 'sequence': 24}
+_Q = {'restrict': 40, 'emission': 16, 'binning': 160, 'opacity': 60, 'sequence': 24}
 _T = {'restrict': 600, 'emission': 250, 'binning': 350, 'opacity': 1500, 'sequence': 400}
 BUDGET = {
     'quick': [dict(name='boundscheck', env={'NUMBA_BOUNDSCHECK': '1'}, shards=4, cases=_Q)],
@@ -41,7 +41,7 @@ REQUIRED = dict(monitors=['restricted-equals-full', 'restricted-grid-is-subset',
                          'different-native-grids', 'layout:xsec', 'layout:ktable', 'contrib:HydrogenIon',
                          'sliding-window-same-size', 'request:own-full', 'request:foreign-same-ends-and-count',
                          'request:foreign-shifted-same-count', 'request:own-sub-range', 'request:foreign-random',
-                         'requested-order:ascending', 'requested-order:descending', 'requested-order:shuffled',
+                         'requested-order:ascending', 'requested-order:descending', 'requested-order:shuffled', 'requested-order:file-order-with-an-outlying-row',
                          'emission:same-size-window', 'emission:star-written-between-evaluations',
                          'request:work-array-refilled-in-place', 'request:foreign-ending-on-an-end-point'])
 CUT = math.exp(-10.0)
@@ -61,7 +61,7 @@ def teardown(ctx):
 
 
 # --------------------------------------------------------------- generators
-def make_case(rng, kind='transmission', hion=False, fine=False):
+def make_case(rng, kind='transmission', hion=False, fine=False, log=None):
     for _ in range(50):
         spec = world.random_world_spec(rng, nlayers=int(rng.choice([2, 3, 5, 7, 13])), n_active=int(rng.integers(1, 4)),
                                        nwn=int(rng.integers(60, 300)) if fine else int(rng.integers(8, 120)),
@@ -73,7 +73,10 @@ def make_case(rng, kind='transmission', hion=False, fine=False):
             t = spec['tables'][mols[0]]
             n = len(t['wn'])
             lo_, hi_ = t['wn'][0], t['wn'][-1]
-            t['wn'] = np.linspace(lo_, hi_, n) if rng.random() < 0.5 else np.logspace(np.log10(lo_), np.log10(hi_), n)
+            linear = rng.random() < 0.5
+            if log is not None:
+                linear = not log
+            t['wn'] = np.linspace(lo_, hi_, n) if linear else np.logspace(np.log10(lo_), np.log10(hi_), n)
         # first molecule keeps the longest (model) grid; give the others overlapping but different grids
         mols = list(spec['tables'])
         main = spec['tables'][mols[0]]
@@ -302,15 +305,45 @@ def wl_emission(ctx, rng):
 def wl_binning(ctx, rng):
     """Binning the restricted result equals binning the full result under the stated width condition."""
     from taurex.data.spectrum.array import ArraySpectrum
-    spec = make_case(rng, fine=True)
+    outlying = rng.random() < 0.15
+    # (the outlying-row layout below on a logarithmic native grid: there the outermost point of a clipped grid has a
+    # different bin than it has in the full grid)
+    spec = make_case(rng, fine=True, log=True if outlying else None)
     native = native_of(spec)
     lo, hi = native[0], native[-1]
     spacing = float(np.max(np.diff(native)))
     # observation: centres with gaps >= 2.5 native spacings somewhere, widths <= widest mid-point bin
+    file_order = None
     for _ in range(200):
         k = int(rng.integers(3, 15))
         a, b = sorted(rng.uniform(lo + 0.1 * (hi - lo), hi - 0.1 * (hi - lo), 2))
         c = np.sort(rng.uniform(a, b, k))
+        if outlying:
+            # a deliberate layout: one row lies a wide gap away from a cluster of the others, and the file lists it
+            # between rows of the cluster - the widest bin of the ordered grid (the outlying row's, as wide as the
+            # gap) is then nowhere to be seen between consecutive rows of the file
+            k = int(rng.integers(5, 10))
+            gap = rng.uniform(0.05, 0.25) * (hi - lo)
+            side = 1 if rng.random() < 0.5 else -1
+            out = rng.uniform(lo + 0.3 * (hi - lo), hi - 0.3 * (hi - lo))
+            sig = float(np.max(np.diff(native[(native > out - gap) & (native < out + gap)]), initial=spacing))
+            if 0.3 * gap <= sig:
+                continue
+            d2 = rng.uniform(0.02, 0.4) * sig
+            # the far edge of the outlying row's (gap-wide) bin falls inside the bin of a native point whose centre
+            # lies outside it: the row is moved so that its edge is a fraction of a native spacing from such a point
+            i0 = int(np.argmin(np.abs(native - (out - side * gap / 2))))
+            out = native[i0] + side * (gap / 2 + rng.uniform(0.55 * d2, 0.45 * sig))
+            near = out + side * gap                                   # the cluster's row nearest the outlying one
+            n2 = near + side * d2
+            rest = near + side * rng.uniform(0.5 * sig, 0.3 * gap, k - 3)
+            j = int(rng.integers(2, k - 2))
+            order = list(rng.permutation(rest))
+            order.insert(j - 2, near)
+            order.insert(j, out)
+            order.insert(j + 2, n2)
+            file_order = np.array(order)
+            c = np.sort(file_order)
         if np.min(np.diff(c)) <= 0:
             continue
         edges = np.concatenate([[c[0] - (c[1] - c[0]) / 2], (c[:-1] + c[1:]) / 2, [c[-1] + (c[-1] - c[-2]) / 2]])
@@ -342,7 +375,10 @@ def wl_binning(ctx, rng):
     # (descending wavenumber), or in file order (shuffled): which points are asked for is all that may matter
     req = np.array(obs.wavenumberGrid, dtype=float)
     how = ['ascending', 'descending', 'shuffled'][rng.choice(3, p=[0.5, 0.35, 0.15])]
-    if how == 'descending':
+    if file_order is not None:
+        how = 'file-order-with-an-outlying-row'
+        req = np.sort(req)[np.argsort(np.argsort(file_order))]
+    elif how == 'descending':
         req = req[::-1].copy()
     elif how == 'shuffled':
         req = req[rng.permutation(len(req))]
